@@ -981,6 +981,24 @@ func (env *SpecEnv) call(x ECall) (SVal, error) {
 		env.cur, env.inOld = saveCur, saveOld
 		return v, err
 	}
+	if x.Fn == "addr" {
+		// addr(x): the address of the local variable x (a variable whose
+		// address is taken lives in a cell; pointers to it compare equal to this)
+		if len(x.Args) != 1 || env.fr == nil || env.fn == nil {
+			return SVal{}, fmt.Errorf("addr(x) needs the name of a local variable")
+		}
+		name := exprString(x.Args[0])
+		for _, b := range env.fn.Blocks {
+			for _, ins := range b.Instrs {
+				if a, ok := ins.(*ssa.Alloc); ok && a.Comment == name {
+					if v, ok := env.fr.vals[a]; ok {
+						return SVal{T: ft.termOf(v, a.Type()), Typ: a.Type(), V: &v}, nil
+					}
+				}
+			}
+		}
+		return SVal{}, fmt.Errorf("addr(%s): no such address-taken local", name)
+	}
 	var args []SVal
 	for _, a := range x.Args {
 		v, err := env.eval(a)
